@@ -11,8 +11,13 @@ use std::sync::OnceLock;
 
 #[derive(Clone, Debug)]
 pub struct Case { rej_dir: bool, tru_dir: bool, in_rej: bool, tru: u8, trust_unknown: bool, skip: bool, check_time: bool,
-                  pol: usize, bits: u32, tm: u8, host: u8, uri: u8 }
-pub struct Hist(Vec<Case>);
+                  pol: usize, bits: u32, tm: u8, host: u8, uri: u8,
+                  /// harness only: take the certificate whose validity period has its decisive end close to the wall
+                  /// clock (just valid / expired two seconds ago / valid in two hours) rather than days away
+                  near: bool }
+#[derive(Clone, Debug)]
+pub enum Step { Val(Case), Time { nb: i64, na: i64, now_ms: i64 } }
+pub struct Hist(Vec<Step>);
 pub struct P;
 
 const POLS: [(SecurityPolicy, &str); 5] = [(SecurityPolicy::Basic128Rsa15, "Basic128Rsa15"), (SecurityPolicy::Basic256, "Basic256"),
@@ -20,7 +25,7 @@ const POLS: [(SecurityPolicy, &str); 5] = [(SecurityPolicy::Basic128Rsa15, "Basi
     (SecurityPolicy::Aes256Sha256RsaPss, "Aes256Sha256RsaPss")];
 const BITS: [u32; 3] = [1024, 2048, 4096];
 
-/// certs[bits index][time index] = (cert, a different cert with the same subject)
+/// certs[bits index][2 * time index + near] = (cert, a different cert with the same subject)
 fn certs() -> &'static Vec<Vec<(X509, X509)>> {
     static C: OnceLock<Vec<Vec<(X509, X509)>>> = OnceLock::new();
     C.get_or_init(|| {
@@ -47,11 +52,53 @@ fn certs() -> &'static Vec<Vec<(X509, X509)>> {
         };
         BITS.iter().map(|bits| {
             let pkey = PKey::from_rsa(Rsa::generate(*bits).unwrap()).unwrap();
-            [(now - day, now + 365 * day), (now + day, now + 2 * day), (now - 2 * day, now - day)].iter().enumerate()
+            // far from / near to the wall clock (a run lasts well under two hours)
+            [(now - day, now + 365 * day), (now - 2, now + 6 * 3600),
+             (now + day, now + 2 * day), (now + 2 * 3600, now + day),
+             (now - 2 * day, now - day), (now - day, now - 2)].iter().enumerate()
                 .map(|(i, (nb, na))| (mk(&pkey, 10 + i as u32, *nb, *na), mk(&pkey, 20 + i as u32, *nb, *na))).collect()
         }).collect()
     })
 }
+
+/// certificates for the direct validity-period questions: one per (notBefore, notAfter), RSA 1024
+fn period_cert(nb: i64, na: i64) -> X509 {
+    use openssl::{asn1::Asn1Time, bn::BigNum, hash::MessageDigest, pkey::PKey, rsa::Rsa, x509::{X509Builder, X509NameBuilder}};
+    use std::sync::Mutex;
+    static KEY: OnceLock<PKey<openssl::pkey::Private>> = OnceLock::new();
+    static CACHE: OnceLock<Mutex<std::collections::HashMap<(i64, i64), X509>>> = OnceLock::new();
+    let cache = CACHE.get_or_init(|| Mutex::new(Default::default()));
+    if let Some(c) = cache.lock().unwrap().get(&(nb, na)) { return c.clone(); }
+    let pkey = KEY.get_or_init(|| PKey::from_rsa(Rsa::generate(1024).unwrap()).unwrap());
+    let mut b = X509Builder::new().unwrap();
+    b.set_version(2).unwrap();
+    let mut n = X509NameBuilder::new().unwrap();
+    n.append_entry_by_text("CN", "period").unwrap();
+    let n = n.build();
+    b.set_subject_name(&n).unwrap(); b.set_issuer_name(&n).unwrap();
+    b.set_serial_number(&BigNum::from_u32(7).unwrap().to_asn1_integer().unwrap()).unwrap();
+    b.set_not_before(&Asn1Time::from_unix(nb).unwrap()).unwrap();
+    b.set_not_after(&Asn1Time::from_unix(na).unwrap()).unwrap();
+    b.set_pubkey(pkey).unwrap();
+    b.sign(pkey, MessageDigest::sha256()).unwrap();
+    let c = X509::from(b.build());
+    cache.lock().unwrap().insert((nb, na), c.clone());
+    c
+}
+/// instants around both ends of a period, in ms: the ends themselves, one ms / one s / minutes / just under and
+/// over a day / weeks to either side
+fn instants(nb: i64, na: i64) -> Vec<i64> {
+    let mut v = Vec::new();
+    for e in [nb * 1000, na * 1000] {
+        for d in [0i64, 1, 999, 1000, 1001, 59_000, 3_600_000, 86_399_000, 86_399_999, 86_400_000, 86_400_001, 172_800_000, 14 * 86_400_000, 400 * 86_400_000] {
+            v.push(e - d); v.push(e + d);
+        }
+    }
+    v.push((nb + na) * 500);
+    v
+}
+const PERIODS: [(i64, i64); 5] = [(1_600_000_000, 1_600_864_000), (1_700_000_000, 1_700_000_001), (1_500_000_000, 1_500_000_000),
+                                  (946_684_800, 2_524_608_000), (1_650_000_000, 1_650_003_600)];
 
 fn class(s: StatusCode) -> i128 {
     if s == StatusCode::Good { 0 } else if s == StatusCode::BadUnexpectedError { 1 } else if s == StatusCode::BadSecurityChecksFailed { 2 }
@@ -62,9 +109,9 @@ fn class(s: StatusCode) -> i128 {
 fn from_index(mut i: u64) -> Case {
     let mut t = |n: u64| { let v = i % n; i /= n; v };
     Case { rej_dir: t(2) == 1, tru_dir: t(2) == 1, in_rej: t(2) == 1, tru: t(3) as u8, trust_unknown: t(2) == 1, skip: t(2) == 1,
-           check_time: t(2) == 1, pol: t(5) as usize, bits: BITS[t(3) as usize], tm: t(3) as u8, host: t(3) as u8, uri: t(3) as u8 }
+           check_time: t(2) == 1, pol: t(5) as usize, bits: BITS[t(3) as usize], tm: t(3) as u8, host: t(3) as u8, uri: t(3) as u8, near: t(2) == 1 }
 }
-const SPACE: u64 = 2 * 2 * 2 * 3 * 2 * 2 * 2 * 5 * 3 * 3 * 3 * 3;
+const SPACE: u64 = 2 * 2 * 2 * 3 * 2 * 2 * 2 * 5 * 3 * 3 * 3 * 3 * 2;
 
 fn arrange(c: &Case, dir: &PathBuf, cert: &X509, other: &X509, name: &str) {
     let rej = dir.join("rejected"); let tru = dir.join("trusted");
@@ -77,18 +124,22 @@ fn arrange(c: &Case, dir: &PathBuf, cert: &X509, other: &X509, name: &str) {
     if c.tru_dir && c.tru == 2 { std::fs::write(tru.join(name), other.to_der().unwrap()).unwrap(); }
 }
 
-fn term1(c: &Case) -> String {
-    format!("(mk_case {} {} {} {} {} {} {} {} {} {} {} {})", coq_bool(c.rej_dir), coq_bool(c.tru_dir), coq_bool(c.in_rej),
+fn term1(s: &Step) -> String {
+    let c = match s { Step::Val(c) => c, Step::Time { nb, na, now_ms } => return format!("(STime {} {} {})", nb * 1000, na * 1000, z(*now_ms as i128)) };
+    format!("(SVal (mk_case {} {} {} {} {} {} {} {} {} {} {} {})", coq_bool(c.rej_dir), coq_bool(c.tru_dir), coq_bool(c.in_rej),
         ["TAbsent", "TSame", "TDiff"][c.tru as usize], coq_bool(c.trust_unknown), coq_bool(c.skip), coq_bool(c.check_time),
         POLS[c.pol].1, c.bits, ["TimeValid", "TimeNotYet", "TimeExpired"][c.tm as usize],
-        ["NNone", "NMatch", "NMismatch"][c.host as usize], ["NNone", "NMatch", "NMismatch"][c.uri as usize])
+        ["NNone", "NMatch", "NMismatch"][c.host as usize], ["NNone", "NMatch", "NMismatch"][c.uri as usize]) + ")"
 }
 
 impl Property for P {
     type Case = Hist;
     fn fixed(tier: &str) -> Vec<Hist> {
-        if tier == "thorough" { return (0..SPACE).map(|i| Hist(vec![from_index(i)])).collect(); }
-        let base = Case { rej_dir: true, tru_dir: true, in_rej: false, tru: 1, trust_unknown: false, skip: false, check_time: true, pol: 2, bits: 2048, tm: 0, host: 1, uri: 1 };
+        // the validity period asked directly, around both ends of five periods
+        let mut periods: Vec<Hist> = Vec::new();
+        for (nb, na) in PERIODS { periods.push(Hist(instants(nb, na).into_iter().map(|now_ms| Step::Time { nb, na, now_ms }).collect())); }
+        if tier == "thorough" { let mut v: Vec<Hist> = (0..SPACE).map(|i| Hist(vec![Step::Val(from_index(i))])).collect(); v.extend(periods); return v; }
+        let base = Case { near: false, rej_dir: true, tru_dir: true, in_rej: false, tru: 1, trust_unknown: false, skip: false, check_time: true, pol: 2, bits: 2048, tm: 0, host: 1, uri: 1 };
         let mut v = vec![base.clone()];
         v.push(Case { tru: 0, ..base.clone() });                       // unknown, untrusted -> rejected store
         v.push(Case { tru: 0, trust_unknown: true, ..base.clone() });  // unknown but trusted by configuration
@@ -106,14 +157,18 @@ impl Property for P {
         v.push(Case { rej_dir: false, ..base.clone() });
         v.push(Case { tru_dir: false, ..base.clone() });
         v.push(Case { tru: 0, trust_unknown: true, tm: 2, ..base.clone() });
-        let mut h: Vec<Hist> = v.into_iter().map(|c| Hist(vec![c])).collect();
+        // the same with the certificates whose period ends (or starts) within seconds / hours of the wall clock
+        for i in 0..v.len() { let c = Case { near: true, ..v[i].clone() }; v.push(c); }
+        let mut h: Vec<Hist> = v.into_iter().map(|c| Hist(vec![Step::Val(c)])).collect();
+        h.extend(periods);
+        let hist = |v: Vec<Case>| Hist(v.into_iter().map(Step::Val).collect());
         // histories on one store instance: trust withdrawn / replaced / cert rejected after it was accepted once
-        h.push(Hist(vec![base.clone(), Case { tru: 0, ..base.clone() }]));
-        h.push(Hist(vec![base.clone(), Case { tru: 2, ..base.clone() }]));
-        h.push(Hist(vec![base.clone(), Case { in_rej: true, ..base.clone() }, base.clone()]));
-        h.push(Hist(vec![base.clone(), Case { host: 2, ..base.clone() }, Case { uri: 2, ..base.clone() }]));
-        h.push(Hist(vec![Case { tru: 0, trust_unknown: true, ..base.clone() }, Case { tru: 0, ..base.clone() }]));
-        h.push(Hist(vec![Case { skip: true, tm: 2, ..base.clone() }, Case { tm: 2, ..base.clone() }]));
+        h.push(hist(vec![base.clone(), Case { tru: 0, ..base.clone() }]));
+        h.push(hist(vec![base.clone(), Case { tru: 2, ..base.clone() }]));
+        h.push(hist(vec![base.clone(), Case { in_rej: true, ..base.clone() }, base.clone()]));
+        h.push(hist(vec![base.clone(), Case { host: 2, ..base.clone() }, Case { uri: 2, ..base.clone() }]));
+        h.push(hist(vec![Case { tru: 0, trust_unknown: true, ..base.clone() }, Case { tru: 0, ..base.clone() }]));
+        h.push(hist(vec![Case { skip: true, tm: 2, ..base.clone() }, Case { tm: 2, ..base.clone() }]));
         h
     }
     fn gen(r: &mut Rng) -> Hist {
@@ -122,6 +177,13 @@ impl Property for P {
             if r.chance(5, 6) { c.rej_dir = true; c.tru_dir = true; }
             if r.chance(3, 4) { c.in_rej = false; }
             c };
+        if r.chance(1, 10) {
+            // direct questions about a random period at instants near its ends
+            let nb = 1_000_000_000 + r.below(900_000_000) as i64;
+            let na = nb + *r.pick(&[0i64, 1, 59, 3600, 86_399, 86_400, 86_401, 30 * 86_400, 3650 * 86_400]);
+            let all = instants(nb, na);
+            return Hist((0..6).map(|_| Step::Time { nb, na, now_ms: *r.pick(&all) + r.range(-2, 3) }).collect());
+        }
         let first = one(r);
         let mut h = vec![first.clone()];
         // half of the cases are histories of 2..3 validations of the SAME certificate on one store
@@ -129,13 +191,13 @@ impl Property for P {
         if r.chance(1, 2) {
             for _ in 0..1 + r.below(2) {
                 let mut c = if r.chance(2, 3) { h[0].clone() } else { one(r) };
-                c.bits = first.bits; c.tm = first.tm;
+                c.bits = first.bits; c.tm = first.tm; c.near = first.near;
                 match r.below(7) { 0 => c.tru = r.below(3) as u8, 1 => c.in_rej = !c.in_rej, 2 => c.host = r.below(3) as u8, 3 => c.uri = r.below(3) as u8,
                                    4 => c.pol = r.below(5) as usize, 5 => c.skip = !c.skip, _ => c.trust_unknown = !c.trust_unknown }
                 h.push(c);
             }
         }
-        Hist(h)
+        Hist(h.into_iter().map(Step::Val).collect())
     }
     fn exec(hist: &Hist) -> Out {
         static N: std::sync::atomic::AtomicU64 = std::sync::atomic::AtomicU64::new(0);
@@ -148,8 +210,17 @@ impl Property for P {
         // the setters are only called when a flag really changes (a store is configured once and
         // then used for many validations)
         let mut flags: Option<(bool, bool, bool)> = None;
-        for c in &hist.0 {
-            let (cert, other) = &certs()[BITS.iter().position(|b| *b == c.bits).unwrap()][c.tm as usize];
+        for st in &hist.0 {
+            let c = match st {
+                Step::Val(c) => c,
+                Step::Time { nb, na, now_ms } => {
+                    let cert = period_cert(*nb, *na);
+                    let now = chrono::DateTime::<chrono::Utc>::from_timestamp_millis(*now_ms).unwrap();
+                    match guarded(|| cert.is_time_valid(&now)) { Ok(s) => out.push(class(s)), Err(_) => out.push(-2) }
+                    continue;
+                }
+            };
+            let (cert, other) = &certs()[BITS.iter().position(|b| *b == c.bits).unwrap()][2 * c.tm as usize + c.near as usize];
             let name = CertificateStore::cert_file_name(cert);
             arrange(c, &dir, cert, other, &name);
             let f = flags.unwrap_or((!c.trust_unknown, !c.skip, !c.check_time));
@@ -165,9 +236,9 @@ impl Property for P {
             }
         }
         let _ = std::fs::remove_dir_all(&dir);
-        let c = &hist.0[0];
+        let c = match &hist.0[0] { Step::Val(c) => c, Step::Time { .. } => return Out { tag: "validity-period".into(), term: coq_list(&hist.0, term1), out } };
         let tag = format!("{}{}{}{}", ["unknown", "trusted", "tampered"][c.tru as usize], if c.in_rej { "-rejected" } else { "" }, if c.skip { "-skipverify" } else { "" },
-                          if hist.0.len() > 1 { "-history" } else { "" });
+                          if hist.0.len() > 1 { "-history" } else if c.near { "-near" } else { "" });
         Out { tag, term: coq_list(&hist.0, term1), out }
     }
 }
